@@ -15,6 +15,10 @@ func genHistory(r *Rng, cfg *Config, n int, lsW []int, pInterpose float64) []Op 
 			ops = append(ops, genBusyWindow(r, cfg, lsW)...)
 			continue
 		}
+		if pInterpose > 0 && r.Chance(0.06) {
+			ops = append(ops, genLockWindow(r, cfg)...)
+			continue
+		}
 		op := genLSOp(r, cfg, lsW)
 		if op.Kind != "sleep" && r.Chance(pInterpose) {
 			k := 1
